@@ -255,7 +255,7 @@ func TestC19_Templates(t *testing.T) {
 	c := harness.New(t, "C19", "templates",
 		"generated valid templates printed with random whitespace/newlines/CRLF between tokens: multi-line text runs, strings containing newlines and escaped quotes, multi-line comments, {{ }} blocks and directive argument lists spread over lines, escapes, non-ASCII text; plus every prefix of them at a sampled cut (unterminated constructs give ILLEGAL/EOF positions). Same oracle. Non-trivial: as above. Distinct by hash.")
 	defer c.Finish()
-	runRapid(t, c, 15000, 60000, func(rt *rapid.T) {
+	runRapid(t, c, 15000, 180000, func(rt *rapid.T) {
 		sg := &synGen{g: &exprGen{}}
 		stmts := sg.stmts(rt, 2, false)
 		// sprinkle position-relevant text
@@ -288,7 +288,7 @@ func TestC19_Soup(t *testing.T) {
 		"random soups of 0..30 lexemes (no NUL) with random non-NUL bytes mixed in; same oracle. Distinct by hash.")
 	defer c.Finish()
 	alpha := c19Alphabet()
-	runRapid(t, c, 30000, 120000, func(rt *rapid.T) {
+	runRapid(t, c, 30000, 360000, func(rt *rapid.T) {
 		n := rapid.IntRange(0, 30).Draw(rt, "n")
 		var b strings.Builder
 		for i := 0; i < n; i++ {
